@@ -27,8 +27,9 @@ PAIRS_FIXED = [('note', 'note'), ('note', 'rest'), ('direction', 'note'), ('scor
                ('measure', 'attributes'), ('lyric', 'note'), ('barline', 'ending'), ('credit', 'credit'), ('pitch', 'unpitched')]
 
 
-def gen_program(z, seed, elem, doc):
-    r = z.run({'mode': 'gen', 'property': 'C20', 'seed': seed, 'index': 0, 'cfg': {'element': elem, 'doc': doc}})
+def gen_program(z, seed, elem, doc, prop='C20', small=False):
+    r = z.run({'mode': 'gen', 'property': prop, 'seed': seed, 'index': 0,
+               'cfg': {'element': elem, 'doc': doc, 'max_ops': 200, 'small': small}})
     return [{k: v for k, v in op.items()} for op in r['ops']]
 
 
@@ -194,6 +195,7 @@ def run(prop, tier, seed):
     rng = random.Random(hash64(seed, 'C20', 'pairs'))
     z = runner.zygote(REPO)
     npairs = P.cfg[tier]['pairs']
+    small = bool(P.cfg[tier].get('small'))
     pairs = []
     fixed = list(PAIRS_FIXED)
     rng.shuffle(fixed)
@@ -203,13 +205,21 @@ def run(prop, tier, seed):
         else:
             ea = rng.choice(spec.ELEMENT_CONTENT_ELEMENTS)
             eb = ea if rng.random() < 0.5 else rng.choice(spec.ELEMENT_CONTENT_ELEMENTS)
-        A = gen_program(z, hash64(seed, 'C20', i, 'A'), ea, 'a0')
+        if i % 3 == 1:
+            # lazy-table probe programs (many classes, every simple-type kind), the same in both threads
+            A = gen_program(z, hash64(seed, 'C20', i, 'A'), None, 'a', prop='C20probe', small=small)
+            B = [dict(op) for op in A]
+            ea = eb = 'probe-program'
+            classes = sorted({op['c']['name'] for op in A if op['op'] == 'NEW'})[:30] + ['note', 'pitch']
+            pairs.append((i, A, B, classes, ea, eb))
+            continue
+        A = gen_program(z, hash64(seed, 'C20', i, 'A'), ea, 'a0', small=small)
         if i % 2 == 0:
             # the same program in both threads: whatever A is initialising, B needs too
             B = [dict(op) for op in A]
             eb = ea
         else:
-            B = gen_program(z, hash64(seed, 'C20', i, 'B'), eb, 'b0')
+            B = gen_program(z, hash64(seed, 'C20', i, 'B'), eb, 'b0', small=small)
         classes = sorted({ea, eb, 'note', 'pitch'})
         pairs.append((i, A, B, classes, ea, eb))
     tasks = []
@@ -217,10 +227,12 @@ def run(prop, tier, seed):
     per_pair = {}
     for (i, A, B, classes, ea, eb) in pairs:
         solo = z.run(job([A], {'kind': 'none'}, classes, canary=False, record_hot=True))
-        n = solo['per_thread_lines']['T0']
-        hot = solo.get('hot', [])
-        first = solo.get('first', [])
+        n = solo.get('lines_pass1') or solo['per_thread_lines']['T0']
+        hot = [h for h in solo.get('hot', []) if h <= n]
+        first = sorted(set(solo.get('first', [])) | set(solo.get('shared_first', [])))
+        first = [f for f in first if f <= n]
         r2 = random.Random(hash64(seed, 'C20', i, 'k'))
+        window_complete = True
         if P.cfg[tier].get('all_k'):
             ks = list(range(1, n + 1))
             exhaustive = True
@@ -228,7 +240,13 @@ def run(prop, tier, seed):
             # complete sweep of the first execution of every (file, line, owner class) - the first use of each
             # class, where lazily initialised shared state is filled - plus a seeded sample of the rest
             want = P.cfg[tier]['k_per_pair']
+            cap = P.cfg[tier].get('window_cap')
             ks = set(first)
+            if cap and len(ks) > cap:
+                ks = set(r2.sample(sorted(ks), cap))
+                window_complete = False
+            else:
+                window_complete = True
             if hot:
                 for _ in range(want // 2):
                     ks.add(r2.choice(hot))
@@ -242,7 +260,7 @@ def run(prop, tier, seed):
             scheds.append({'kind': 'pct', 'seed': hash64(seed, 'C20', i, 'pct', j), 'depth': r2_depth(seed, i, j),
                            'p': 0.0005, 'p_hot': 0.02})
         per_pair[i] = {'elements': [ea, eb], 'lines_of_A_alone': n, 'hot_lines': len(hot), 'single_preemptions': len(ks),
-                       'first_executions_of_a_line_per_owner_class': len(first), 'first_execution_sweep_complete': True,
+                       'first_executions_of_a_line_per_owner_class': len(first), 'first_execution_sweep_complete': window_complete,
                        'same_program_in_both_threads': i % 2 == 0,
                        'exhaustive_single_preemption': exhaustive, 'ops': [len(A), len(B)]}
         total_sched += len(scheds)
